@@ -8,6 +8,7 @@ from specs import startup, event_entry, lifecycle, simulate
 def build(run):
     startup.verify_startup(run)
     lifecycle.verify_init_async(run)
+    startup.verify_initasync(run)          # InitAsync's regular routine: only when nothing else can initialise the block
     startup.verify_async_init_addon(run)   # AddonAsyncInit (ValuePoll): init_async returns only when the block has an output
     lifecycle.verify_api(run)
     lifecycle.verify_run_forever(run)      # order of the start-up steps; invariant J at its suspension points
